@@ -5,7 +5,11 @@ import json, os, subprocess, sys
 env = dict(os.environ); env["GOFLAGS"] = "-mod=mod"; env["GOPROXY"] = "off"
 env.pop("GOTOOLCHAIN", None); env.pop("GOSUMDB", None)
 repo = os.environ.get("VERIF_REPO", "/repo")
-p = subprocess.run(["go", "test", "-json", "-vet=off", "-count=1", "-timeout", "25m"] + sys.argv[1:] + ["./..."],
+# BASELINE_PKGS (import paths, space separated): run only these packages and compare only their tests.
+# Used by tools/seedconfirm.py with the set of packages whose transitive dependencies a patch touches:
+# the outcome of a test in any other package cannot depend on the patch.
+pkgs = os.environ.get("BASELINE_PKGS", "").split()
+p = subprocess.run(["go", "test", "-json", "-vet=off", "-count=1", "-timeout", "25m"] + sys.argv[1:] + (pkgs or ["./..."]),
                    cwd=repo, env=env, stdout=subprocess.PIPE, stderr=subprocess.DEVNULL, text=True)
 status = {}
 for line in p.stdout.splitlines():
@@ -16,6 +20,8 @@ for line in p.stdout.splitlines():
     if e.get("Test") and e.get("Action") in ("pass", "fail", "skip"):
         status[e["Package"] + "::" + e["Test"]] = e["Action"]
 base = json.load(open("/root/.vp/BASELINE.json"))["stable_pass"]
+if pkgs:
+    base = [t for t in base if t.split("::")[0] in pkgs]
 bad = [t for t in base if status.get(t) != "pass"]
 print(f"baseline: {len(base)} stable tests, {len(base) - len(bad)} pass now, {len(bad)} not passing; "
       f"{sum(1 for v in status.values() if v == 'fail')} failing tests overall")
